@@ -466,9 +466,12 @@ impl<R: Read + io::Seek> ZipArchive<R> {
         let (archive_offset, directory_start, number_of_files) =
             Self::get_directory_counts(&mut reader, &footer, cde_start_pos)?;
 
-        // If the parsed number of files is greater than the offset then
-        // something fishy is going on and we shouldn't trust number_of_files.
-        let file_capacity = if number_of_files > cde_start_pos as usize {
+        // Every central directory header occupies at least 46 bytes, so no more than this many
+        // fit between the start of the directory and the end record. If the parsed number of
+        // files is greater then something fishy is going on and we shouldn't trust
+        // number_of_files.
+        let max_files = cde_start_pos.saturating_sub(directory_start) / 46;
+        let file_capacity = if number_of_files as u64 > max_files {
             0
         } else {
             number_of_files
